@@ -584,7 +584,7 @@ def _om_classes():
 
 
 def _ln_solver(om, t):
-    kw = dict(iprint=-1, err_on_non_converge=False, atol=1e-14, rtol=1e-14, maxiter=200)
+    kw = dict(iprint=-1, err_on_non_converge=False, atol=1e-14, rtol=1e-14, maxiter=60)
     if t == 'runonce':
         return om.LinearRunOnce()
     if t == 'direct':
@@ -625,7 +625,8 @@ def build_opt(s, hook=None, driver=True):
     ivc = m.add_subsystem('iv', om.IndepVarComp(), promotes=['*'])
     ivc.add_output('xa', np.asarray(s['x0a'], float))
     ivc.add_output('xb', np.asarray(s['x0b'], float))
-    ivc.add_output('q', np.asarray(s['q'], float))
+    ivq = m.add_subsystem('ivq', om.IndepVarComp(), promotes=['*'])
+    ivq.add_output('q', np.asarray(s['q'], float))
     ivc.add_output('xz', np.asarray(s['xz0'], float))
     m.add_subsystem('pre', Lin([('q', nq)], [('pq', 2)], {('pq', 'q'): s['P']}, {'pq': s['p0']}, hook, 'pre', sp),
                     promotes=['*'])
@@ -693,4 +694,180 @@ def build_opt(s, hook=None, driver=True):
     if driver:
         prob.driver = om.ScipyOptimizeDriver(optimizer='SLSQP', tol=1e-13, maxiter=300, disp=False)
         prob.driver.options['singular_jac_behavior'] = 'ignore'
+    return prob
+
+
+# =====================================================================================================
+# Part 3: linear implicit component whose residuals couple its outputs
+# =====================================================================================================
+def gen_coupled_spec(rng):
+    """rng: np.random.Generator.   R(y; x) = M y - N x - c = 0  with y = (y0, y1, y2), x = (x1, x2):
+    M = blockdiag(d_i I) + sparse off-diagonal blocks (only those are declared as partials), N sparse by block.
+    Followed by an explicit component z = C y_a + D y_b.   Exact: dy/dx = M^-1 N."""
+    ny = [int(rng.integers(1, 3)) for _ in range(3)]
+    nx = [int(rng.integers(1, 3)) for _ in range(2)]
+    s = {'ny': ny, 'nx': nx, 'M': {}, 'N': {}, 'd': [float(np.round(rng.uniform(1.0, 2.0), 2)) for _ in range(3)]}
+    shape = str(rng.choice(['chain', 'chain', 'lower', 'random', 'cycle', 'none', 'none']))
+    s['shape'] = shape
+    pairs = []
+    if shape == 'chain':          # y0 <- y1 <- y2 <- x   (y0's residual does not see x)
+        pairs = [(0, 1), (1, 2)]
+    elif shape == 'lower':
+        pairs = [(1, 0), (2, 1), (2, 0)]
+    elif shape == 'cycle':
+        pairs = [(0, 1), (1, 2), (2, 0)]
+    elif shape == 'none':         # control: residuals do not couple the outputs
+        pairs = []
+    else:
+        pairs = [(i, j) for i in range(3) for j in range(3) if i != j and rng.random() < 0.4]
+    for (i, j) in pairs:
+        s['M']['%d,%d' % (i, j)] = (np.round(rng.uniform(0.2, 0.6, (ny[i], ny[j])) *
+                                             rng.choice([-1.0, 1.0], (ny[i], ny[j])), 3) / max(ny)).tolist()
+    if shape == 'chain':
+        nblocks = [(2, 0), (2, 1)] if rng.random() < 0.5 else [(2, 0), (1, 1)]
+    else:
+        nblocks = [(i, k) for i in range(3) for k in range(2) if rng.random() < 0.4]
+        for k in range(2):
+            if not any(b[1] == k for b in nblocks):
+                nblocks.append((int(rng.integers(0, 3)), k))
+    for (i, k) in nblocks:
+        s['N']['%d,%d' % (i, k)] = np.round(rng.uniform(0.3, 1.5, (ny[i], nx[k])) *
+                                            rng.choice([-1.0, 1.0], (ny[i], nx[k])), 3).tolist()
+    s['c'] = [np.round(rng.uniform(-1, 1, n), 3).tolist() for n in ny]
+    s['x'] = [np.round(rng.uniform(-1, 1, n), 3).tolist() for n in nx]
+    a, b = (int(v) for v in rng.choice(3, 2, replace=False))
+    s['z_from'] = [a, b] if rng.random() < 0.5 else [a]
+    s['C'] = [np.round(rng.uniform(0.3, 1.0, (2, ny[k])), 3).tolist() for k in s['z_from']]
+    s['of'] = sorted(set(['y%d' % int(i) for i in rng.choice(3, int(rng.integers(1, 4)), replace=False)] +
+                         (['z'] if rng.random() < 0.7 else [])))
+    s['wrt'] = ['x1', 'x2'] if rng.random() < 0.7 else [str(rng.choice(['x1', 'x2']))]
+    s['root_ln'] = str(rng.choice(['runonce', 'lnbgs', 'lnbj', 'krylov', 'direct']))
+    s['in_group'] = bool(rng.random() < 0.5)
+    s['grp_ln'] = str(rng.choice(['runonce', 'lnbgs', 'krylov', 'direct']))
+    s['mode'] = str(rng.choice(['fwd', 'rev']))
+    s['declared'] = bool(rng.random() < 0.5)
+    s['one_ivc'] = bool(rng.random() < 0.5)
+    return s
+
+
+def coupled_matrices(s):
+    ny, nx = s['ny'], s['nx']
+    oy = np.concatenate([[0], np.cumsum(ny)])
+    ox = np.concatenate([[0], np.cumsum(nx)])
+    M = np.zeros((oy[-1], oy[-1]))
+    N = np.zeros((oy[-1], ox[-1]))
+    for i in range(3):
+        M[oy[i]:oy[i + 1], oy[i]:oy[i + 1]] = s['d'][i] * np.eye(ny[i])
+    for k, B in s['M'].items():
+        i, j = (int(v) for v in k.split(','))
+        M[oy[i]:oy[i + 1], oy[j]:oy[j + 1]] = np.asarray(B, float)
+    for k, B in s['N'].items():
+        i, j = (int(v) for v in k.split(','))
+        N[oy[i]:oy[i + 1], ox[j]:ox[j + 1]] = np.asarray(B, float)
+    return M, N, oy, ox
+
+
+def coupled_reference(s):
+    """exact values and d(of)/d(wrt) blocks: {'y0': {...}, ...}"""
+    M, N, oy, ox = coupled_matrices(s)
+    x = np.concatenate([np.asarray(v, float) for v in s['x']])
+    c = np.concatenate([np.asarray(v, float) for v in s['c']])
+    y = np.linalg.solve(M, N @ x + c)
+    S = np.linalg.solve(M, N)
+    Cz = np.zeros((2, oy[-1]))
+    for k, C in zip(s['z_from'], s['C']):
+        Cz[:, oy[k]:oy[k + 1]] = np.asarray(C, float)
+    rows = {'y%d' % i: S[oy[i]:oy[i + 1]] for i in range(3)}
+    rows['z'] = Cz @ S
+    vals = {'y%d' % i: y[oy[i]:oy[i + 1]] for i in range(3)}
+    vals['z'] = Cz @ y
+    cols = {'x1': slice(ox[0], ox[1]), 'x2': slice(ox[1], ox[2])}
+    J = np.vstack([np.hstack([rows[o][:, cols[w]] for w in s['wrt']]) for o in s['of']])
+    # structural dependency: closure over the block patterns
+    return {'J': J, 'vals': vals, 'cond': float(np.linalg.cond(M))}
+
+
+def build_coupled(s, hook=None):
+    import openmdao.api as om
+    M, N, oy, ox = coupled_matrices(s)
+    ny, nx = s['ny'], s['nx']
+    Minv = np.linalg.inv(M)
+    cvec = np.concatenate([np.asarray(v, float) for v in s['c']])
+
+    class Coupled(om.ImplicitComponent):
+        def setup(self):
+            for k in range(2):
+                self.add_input('x%d' % (k + 1), np.zeros(nx[k]))
+            for i in range(3):
+                self.add_output('y%d' % i, np.zeros(ny[i]))
+
+        def setup_partials(self):
+            for i in range(3):
+                self.declare_partials('y%d' % i, 'y%d' % i, val=s['d'][i] * np.eye(ny[i]))
+            for k, B in s['M'].items():
+                i, j = (int(v) for v in k.split(','))
+                self.declare_partials('y%d' % i, 'y%d' % j, val=np.asarray(B, float))
+            for k, B in s['N'].items():
+                i, j = (int(v) for v in k.split(','))
+                self.declare_partials('y%d' % i, 'x%d' % (j + 1), val=-np.asarray(B, float))
+
+        def _xy(self, inputs, outputs):
+            return (np.concatenate([inputs['x1'], inputs['x2']]),
+                    np.concatenate([outputs['y0'], outputs['y1'], outputs['y2']]))
+
+        def apply_nonlinear(self, inputs, outputs, residuals):
+            x, y = self._xy(inputs, outputs)
+            r = M @ y - N @ x - cvec
+            for i in range(3):
+                residuals['y%d' % i] = r[oy[i]:oy[i + 1]]
+
+        def solve_nonlinear(self, inputs, outputs):
+            if hook:
+                hook('solve_nonlinear', 'cpl', None)
+            x = np.concatenate([inputs['x1'], inputs['x2']])
+            y = Minv @ (N @ x + cvec)
+            for i in range(3):
+                outputs['y%d' % i] = y[oy[i]:oy[i + 1]]
+
+        def linearize(self, inputs, outputs, partials):
+            if hook:
+                hook('linearize', 'cpl', None)
+
+        def solve_linear(self, d_outputs, d_residuals, mode):
+            if mode == 'fwd':
+                r = np.concatenate([d_residuals['y%d' % i] for i in range(3)])
+                y = Minv @ r
+                for i in range(3):
+                    d_outputs['y%d' % i] = y[oy[i]:oy[i + 1]]
+            else:
+                y = np.concatenate([d_outputs['y%d' % i] for i in range(3)])
+                r = Minv.T @ y
+                for i in range(3):
+                    d_residuals['y%d' % i] = r[oy[i]:oy[i + 1]]
+
+    prob = om.Problem()
+    m = prob.model
+    if s['one_ivc']:
+        iv = m.add_subsystem('iv', om.IndepVarComp(), promotes=['*'])
+        iv.add_output('x1', np.asarray(s['x'][0], float))
+        iv.add_output('x2', np.asarray(s['x'][1], float))
+    else:
+        m.add_subsystem('iv1', om.IndepVarComp('x1', np.asarray(s['x'][0], float)), promotes=['*'])
+        m.add_subsystem('iv2', om.IndepVarComp('x2', np.asarray(s['x'][1], float)), promotes=['*'])
+    if s['in_group']:
+        g = m.add_subsystem('g', om.Group(), promotes=['*'])
+        g.add_subsystem('cpl', Coupled(), promotes=['*'])
+        g.linear_solver = _ln_solver(om, s['grp_ln'])
+    else:
+        m.add_subsystem('cpl', Coupled(), promotes=['*'])
+    Lin, _ = _om_classes()
+    ins = [('y%d' % k, ny[k]) for k in s['z_from']]
+    blocks = {('z', 'y%d' % k): np.asarray(C, float) for k, C in zip(s['z_from'], s['C'])}
+    m.add_subsystem('zc', Lin(ins, [('z', 2)], blocks, {'z': np.zeros(2)}, hook, 'zc', False), promotes=['*'])
+    m.linear_solver = _ln_solver(om, s['root_ln'])
+    if s['declared']:
+        for w in s['wrt']:
+            m.add_design_var(w)
+        for k, o in enumerate(s['of']):
+            m.add_constraint(o, upper=1e3)
     return prob
